@@ -22,9 +22,9 @@ RULE = ("histories = start in {0,1,3,2.5} x dt in {1,.5,.25,.1} x 1-10 steps x p
         "distinct_nontrivial = distinct (start, dt, settings pattern, compress, path) combinations with at least 2 steps and at least one "
         "step carrying settings.")
 ASSUMPTIONS = ["equality up to one JSON round trip: numeric dict keys are compared as floats, tuples as lists", "the 'lock' flag is not part of the comparison (it is cleared on save by design)"]
-REQUIRED = {"overwrites_of_existing_state_file": 5, "histories": 100, "restores": 100, "state_fields_compared": 500, "post_restore_steps": 100}
+REQUIRED = {"rebegun_sessions": 10, "saves_while_absent": 10, "overwrites_of_existing_state_file": 5, "histories": 100, "restores": 100, "state_fields_compared": 500, "post_restore_steps": 100}
 BUDGET_S = {"quick": 110, "thorough": 1500}
-PATHS = ["lazy", "save-load", "timeout", "new-server"]
+PATHS = ["lazy", "save-load", "timeout", "new-server", "save-while-absent"]
 
 
 def gen_cases(tier, seed):
@@ -36,7 +36,10 @@ def gen_cases(tier, seed):
         dt = rng.choice(["1", "0.5", "0.25", "0.1"])
         steps = rng.randint(1, 10)
         pattern = [rng.choice(["const", "points", "empty", "nobody", "const", "steps2const", "steps3empty", "steps2points"]) for _ in range(steps)]
-        cases.append(dict(layer="rest", start=start, dt=dt, pattern=pattern, compress=bool(i % 2), path=PATHS[(i // 2) % 4], vseed=rng.randrange(10 ** 6)))
+        if i % 3 == 2 and len(pattern) >= 3:
+            # a second session begun on the live instance: only ITS logs may be in the state that is saved afterwards
+            pattern.insert(rng.randint(1, len(pattern) - 1), "rebegin")
+        cases.append(dict(layer="rest", start=start, dt=dt, pattern=pattern, compress=bool(i % 2), path=PATHS[(i // 2) % 5], vseed=rng.randrange(10 ** 6)))
     # histories on which even the compressed format loses nothing (start=1, dt=1, the same constant on every step):
     # the compressed mode stays checkable there although its general lossiness is a known finding
     for i in range(24 if tier == "quick" else 400):
@@ -144,6 +147,13 @@ def run_rest(case, counters):
             for k, kind in enumerate(case["pattern"]):
                 clock.advance(seconds=1)
                 nsteps_done += 1
+                if kind == "rebegin":
+                    r = c.post("/%s/begin-session" % iid, json={"scenario_managers": [srv.MG], "scenarios": [srv.SC], "equations": list(srv.EQS)})
+                    nsteps_done = 0
+                    counters["rebegun_sessions"] = counters.get("rebegun_sessions", 0) + 1
+                    if r.status_code != 200:
+                        return dict(kind="begin-session-failed", status=r.status_code)
+                    continue
                 if kind.startswith("steps"):
                     # one settings object shared by several steps of a run-steps request
                     st = settings_for({"const": "const", "empty": "empty", "points": "points"}[kind[6:]], rng)
@@ -170,6 +180,17 @@ def run_rest(case, counters):
                 r = c.post("/load-state")
                 if r.status_code != 200:
                     return dict(kind="load-state-failed", status=r.status_code, body=r.get_data(as_text=True)[:200])
+            elif path == "save-while-absent":
+                # the instance lives only in its state file (dropped from memory); another instance is alive; whole-server save;
+                # the absent instance must still be restorable afterwards
+                app._instance_manager._delete_instance(iid)
+                other = json.loads(c.post("/start-instance", json={"timeout": {"hours": 5}}).get_data(as_text=True))["instance_uuid"]
+                c.post("/%s/begin-session" % other, json={"scenario_managers": [srv.MG], "scenarios": [srv.SC], "equations": list(srv.EQS)})
+                c.post("/%s/run-step" % other, json={"settings": {}})
+                r = c.get("/save-state")
+                if r.status_code != 200:
+                    return dict(kind="save-state-failed", status=r.status_code, body=r.get_data(as_text=True)[:200])
+                counters["saves_while_absent"] = counters.get("saves_while_absent", 0) + 1
             elif path == "timeout":
                 clock.advance(seconds=60)
                 c.get("/metrics")
